@@ -55,6 +55,7 @@ def usage_cells():
         yield {"name": "single-line-unsupported", "argv": base + ["--single-line"], "bad": "h2.html", "pos": pos}
         yield {"name": "multi-line-unsupported", "argv": base + ["--multi-line"], "bad": "h1.py", "pos": pos}
         yield {"name": "unrecognised-extension", "argv": base, "bad": "data.xyz", "pos": pos}
+        yield {"name": "unrecognised-extensionless", "argv": base, "bad": "NOTES", "pos": pos}
     for name, extra in {
         "year+exclude-year": ["--exclude-year"], "single+multi": ["--single-line", "--multi-line"],
         "force+fallback": ["--force-dot-license", "--fallback-dot-license"], "force+skip-unrecognised": ["--force-dot-license", "--skip-unrecognised"],
@@ -80,7 +81,7 @@ def cases(tier, seed):
             for sel in itertools.permutations(["H1", "X1", "H3", "BIN", "C3"], 2):
                 yield {"k": "tpl", "tpl": tpl, "target": target, "sel": list(sel)}
     for cell in usage_cells():
-        for variant in range(len(NAME_VARIANTS) if cell["bad"] in ("h2.html", "h1.py") else 1):
+        for variant in range(len(NAME_VARIANTS) if cell["bad"] in ("h2.html", "h1.py", "NOTES") else 1):
             yield {"k": "usage", "variant": variant, **cell}
 
 
@@ -179,6 +180,15 @@ def ev_usage(c) -> R:
     healthy = [py1, py2]
     if c["name"] == "multi-line-unsupported":
         healthy = [html, v[0] + "2.html"]
+    if c["name"] == "unrecognised-extensionless":
+        # files recognised by their *name*, next to an unrecognised name without extension
+        healthy = [["Makefile", "Dockerfile"], ["Dockerfile", "Gemfile"], ["Makefile", "Rakefile"], ["CMakeLists.txt", "Makefile"]][c.get("variant", 0) % 4]
+        for h in healthy:
+            recipe_extra = root / h
+            recipe_extra.write_text("all:\n")
+        (root / "NOTES").write_text("notes\n")
+        (root / "TODO").write_text("todo\n")
+        bad = ["NOTES", "TODO"][c.get("variant", 0) // 4 % 2]
     names = list(healthy)
     if bad:
         names.insert(c["pos"], bad)
